@@ -77,9 +77,16 @@ Proof.
   first [reflexivity | f_equal; unfold hour_ns; lia].
 Qed.
 
-(* the two inputs on which the real decoder panics (finding F8) *)
-Theorem duration_panics : parse_duration "" = DPanic /\ parse_duration "-" = DPanic.
-Proof. split; reflexivity. Qed.
+(* the two inputs on which the decoder panicked before fix F8 are now rejected; no input panics *)
+Theorem duration_total : forall s, parse_duration s <> DPanic.
+Proof.
+  intros s. unfold parse_duration.
+  repeat match goal with
+  | |- context [match ?x with _ => _ end] => destruct x
+  | |- context [if ?x then _ else _] => destruct x
+  | |- context [let (_, _) := ?x in _] => destruct x
+  end; discriminate.
+Qed.
 
 (* days_from_civil: consecutive days, month and year roll-over, for every year *)
 Lemma days_step_in_month y m d : 1 <= m <= 12 -> days_from_civil y m (d + 1) = days_from_civil y m d + 1.
